@@ -255,6 +255,7 @@ func genHostile(t *rapid.T, n *consim.Net, nd *consim.Node, signer int, pstate *
 	if signer >= 0 {
 		kinds = append(kinds, "conflict-replay", "conflict-replay", "conflict-replay")
 	}
+	kinds = append(kinds, "catchup-rounds", "catchup-rounds")
 	kind := rapid.SampledFrom(kinds).Draw(t, "mkind")
 	if prefer != "" && rapid.Bool().Draw(t, "preferred") {
 		kind = prefer
@@ -531,6 +532,28 @@ func genHostile(t *rapid.T, n *consim.Net, nd *consim.Node, signer int, pstate *
 		}
 		h.legit = false
 		h.desc = fmt.Sprintf("near-limit-part wire=%d", len(h.bytes))
+	case "catchup-rounds":
+		// votes for the two future rounds a peer may open on the node (HeightVoteSet keeps up to two "catch-up" rounds per
+		// peer): rounds c+a and c+b of the node's height, signed or not - the node walks into those rounds later
+		h.ch = consensus.VoteChannel
+		a := rapid.IntRange(1, 3).Draw(t, "cu_a")
+		b := a + rapid.IntRange(1, 2).Draw(t, "cu_b")
+		mkv := func(r int) []byte {
+			vi := 0
+			var addr crypto.Address = []byte("nobody")
+			if signer >= 0 {
+				vi, _ = n.ValSet.GetByAddress(n.Vals[signer].Addr)
+				addr = n.Vals[signer].Addr
+			}
+			v := &types.Vote{ValidatorAddress: addr, ValidatorIndex: vi, ValidatorSize: n.ValSet.Size(), Height: rs.Height, Round: r,
+				Timestamp: time.Unix(1569409200, 0).UTC(), Type: byte(rapid.SampledFrom([]int{1, 2}).Draw(t, "cu_ty")), BlockID: genBlockID(t, n, nd, "cu_bid")}
+			v.Signature = sign(v.SignBytes(consim.ChainID))
+			return enc(&consensus.VoteMessage{Vote: v})
+		}
+		h.bytes = mkv(rs.Round + a)
+		h.more = append(h.more, wire{consensus.VoteChannel, mkv(rs.Round + b)})
+		h.legit = signer >= 0
+		h.desc = fmt.Sprintf("catchup-rounds h=%d rounds %d and %d signer=%d", rs.Height, rs.Round+a, rs.Round+b, signer)
 	case "conflict-replay":
 		// An equivocating validator and ordinary gossip: its vote for a block X comes first, then the genuine votes of the other
 		// validators for the block Y they really voted for (the peer relays what it has seen on the network; together with the
@@ -1065,10 +1088,49 @@ func runCase(t *rapid.T) {
 		}
 		return 0
 	}
-	for i := 0; i < 200 && victim.Script.Height() < target; i++ {
+	// Some of the following rounds are starved (their proposals reach nobody), so that the nodes walk through a few rounds one
+	// at a time - into the rounds the peer may have opened on the victim - before a round decides.
+	starve := rapid.IntRange(0, 4).Draw(t, "starvedrounds")
+	if starve > 0 {
+		vstat.Label("post_schedule_with_starved_rounds")
+	}
+	starveH, starveFrom := victim.CS.GetRoundState().Height, victim.CS.GetRoundState().Round
+	for _, nd := range n.Nodes {
+		if rs := nd.CS.GetRoundState(); nd.Crashed == nil && rs.Height == starveH && rs.Round > starveFrom {
+			starveFrom = rs.Round
+		}
+	}
+	// (a round somebody other than its proposer has already seen the proposal of goes on normally: withholding the rest of
+	// its parts would leave a node that learns the decision without the block, which real gossip repairs)
+	for k, e := range n.Pool {
+		if pm, ok := e.Msg.(*consensus.ProposalMessage); ok && !e.Byz && pm.Proposal != nil && pm.Proposal.Height == starveH && pm.Proposal.Round >= starveFrom {
+			for _, nd := range n.Nodes {
+				if nd.Idx != e.From && nd.Delivered[k] && pm.Proposal.Round+1 > starveFrom {
+					starveFrom = pm.Proposal.Round + 1
+				}
+			}
+		}
+	}
+	starved := func(m consensus.ConsensusMessage) bool {
+		switch v := m.(type) {
+		case *consensus.ProposalMessage:
+			return v.Proposal != nil && v.Proposal.Height == starveH && v.Proposal.Round >= starveFrom && v.Proposal.Round < starveFrom+starve
+		case *consensus.BlockPartMessage:
+			return v.Height == starveH && v.Round >= starveFrom && v.Round < starveFrom+starve
+		}
+		return false
+	}
+	for i := 0; i < 200+100*starve && victim.Script.Height() < target; i++ {
 		progressed := false
 		end := len(n.Pool)
 		for k := 0; k < end; k++ {
+			if !n.Pool[k].Byz && starved(n.Pool[k].Msg) {
+				for _, nd := range n.Nodes {
+					if nd.Idx != n.Pool[k].From {
+						nd.Delivered[k] = true
+					}
+				}
+			}
 			for _, nd := range n.Nodes {
 				if nd.Crashed != nil || nd.Delivered[k] {
 					continue
